@@ -15,12 +15,34 @@ import (
 // Ideal AEAD (DESIGN §3): Seal(nonce, pt) = pt || nonce || keyid ; Open succeeds iff the trailing
 // 16 bytes are exactly (the receiver's nonce, the key id) - i.e. integrity and nonce binding are
 // assumed, confidentiality is not modelled. It is plain Go, so the harness replays natively.
-// The connection is an in-memory byte queue; the libp2p buffer pool is replaced by make().
+// The connection is an in-memory byte queue; the libp2p buffer pool is a LIFO free list whose buffers are poisoned on Put.
 
 //zz:stub github.com/libp2p/go-buffer-pool.Get harness zzPoolGet
-//zz:stub github.com/libp2p/go-buffer-pool.Put noop
+//zz:stub github.com/libp2p/go-buffer-pool.Put harness zzPoolPut
 
-func zzPoolGet(n int) []byte { return make([]byte, n) }
+// The libp2p buffer pool, modelled adversarially: a buffer handed back with Put no longer belongs
+// to the caller - its contents are scribbled over at once (any other user of the process-wide pool
+// may do that at any time) and the next Get of a fitting size receives the very same memory.
+var zzPoolFree [][]byte
+
+func zzPoolGet(n int) []byte {
+	for i := len(zzPoolFree) - 1; i >= 0; i-- {
+		if cap(zzPoolFree[i]) >= n {
+			b := zzPoolFree[i][:n]
+			zzPoolFree = append(zzPoolFree[:i:i], zzPoolFree[i+1:]...)
+			return b
+		}
+	}
+	return make([]byte, n)
+}
+
+func zzPoolPut(b []byte) {
+	b = b[:cap(b)]
+	for i := range b {
+		b[i] = 0xA5
+	}
+	zzPoolFree = append(zzPoolFree, b)
+}
 
 type zzAEAD struct{ key uint32 }
 
@@ -80,7 +102,7 @@ var zzReadSizes = []int{1, 700, 1024, 1500}
 // E1: what one side writes (two writes of boundary sizes, symbolic contents) is exactly what the
 // other side reads, for every read-buffer size in the set, with nothing skipped or duplicated.
 //
-//zz:harness unwind=40 maxsteps=400000000 panic=violation:E1.nopanic
+//zz:harness unwind=40 maxsteps=400000000 panic=violation:E1.nopanic replay=model
 //zz:reach E1.done
 func ZZ_C17_E1_framing_roundtrip() {
 	w, r, wire := zzConnPair()
